@@ -569,7 +569,7 @@ void h_arity_real(void) {
 /* ---- string objects for the set / range units ---- */
 #if defined(LEAF_getrange) || defined(SHAPE_range) || defined(SHAPE_set)
 #define SMAX 3
-#define RSPAN 8
+#define RSPAN 4
 static const uint8_t *mk_string(int32_t *lenp) {
   JanetStringHead *h = malloc(sizeof(JanetStringHead) + SMAX + 1); __CPROVER_assume(h != NULL);
   int32_t len = nd_i32(); __CPROVER_assume(len >= 0 && len <= SMAX);
